@@ -8,9 +8,19 @@ use once_cell::sync::OnceCell;
 pub fn init() {
     static INITED: OnceCell<()> = OnceCell::new();
     INITED.get_or_init(|| {
+        #[cfg(feature = "verif_hooks")]
+        crate::verif_hooks::init_stage(0);
         PrefixOpManager::new().init();
+        #[cfg(feature = "verif_hooks")]
+        crate::verif_hooks::init_stage(1);
         InfixOpManager::new().init();
+        #[cfg(feature = "verif_hooks")]
+        crate::verif_hooks::init_stage(2);
         PostfixOpManager::new().init();
+        #[cfg(feature = "verif_hooks")]
+        crate::verif_hooks::init_stage(3);
         InnerFunctionManager::new().init();
+        #[cfg(feature = "verif_hooks")]
+        crate::verif_hooks::init_stage(4);
     });
 }
